@@ -310,6 +310,10 @@ func runMultiCase(sp caseSpec) (res caseResult) {
 		}
 		apps, _, bad := attribute(sessions, log)
 		if bad != nil {
+			if _, amb := bad["attribution_ambiguous_payload_was_forwarded_on_session"]; amb {
+				res.Inconcl = fmt.Sprintf("reader %s: applied entries could not be attributed to connections (apply index %v): %v", r.id, bad["apply_index"], bad)
+				continue
+			}
 			add(sigWirePrefix, bad)
 			continue
 		}
